@@ -131,3 +131,10 @@ impl World {
         ensures world_mutated_at(*old(self), *final(self), *fs, path@), tc_set_time(old(self).tree(*fs), path@, TimeField::Accessed, time, r, final(self).tree(*fs))
     { unimplemented!() }
 }
+// ---- iterator adapter stand-in (rule R8): `it.map(f)` over a listing, eagerly; elementwise closure contract
+#[verifier::external_body]
+fn verif_iter_map<T, U, F: FnMut(T) -> U>(it: std::vec::IntoIter<T>, f: F) -> (r: std::vec::IntoIter<U>)
+    requires forall|i: int| 0 <= i < it.remaining().len() ==> f.requires((#[trigger] it.remaining()[i],))
+    ensures r.remaining().len() == it.remaining().len(),
+            forall|i: int| 0 <= i < it.remaining().len() ==> f.ensures((it.remaining()[i],), #[trigger] r.remaining()[i]),
+{ it.map(f).collect::<Vec<_>>().into_iter() }
